@@ -6,6 +6,8 @@ the verified checker of Spec/GraphIso.lean on (data block before, data block aft
 ` awf=<0|1>` (per record, on the store after the call, and on the final store): the well-formedness `Heap.WF` that
 the accessor theorems of Props/C07Access.lean assume, decided on the heap view `toAccessHeap` of the store
 (Props/C07Reach.lean proves it for every reachable store; the suite compares the store with the real heap cell by cell).
+` wfq=<0|1>` next to it: the invariant `WFq` of Props/C07ReachV.lean (stores with in-place updates of the input value) decided
+on the same store; ` ns=<0|1>` on `opt` records: the side condition `noStale` of the `optimize` step on the store before the call.
 Extra op (driver only): `load <dump>` replaces the state by a heap dump printed by the harness
 (used to replay the pre-states of running programs).
 -/
@@ -14,6 +16,7 @@ import Garnish.Spec.GraphIso
 import Garnish.Lemmas.OptimizeWF
 import Garnish.Lemmas.OptimizeWFv
 import Garnish.Lemmas.AccessReach
+import Garnish.Lemmas.MutStale
 import Garnish.Driver.ValIO
 namespace Garnish.Driver.Opt
 open Garnish Gen Garnish.Proto Garnish.BasicOpt Garnish.Driver
@@ -342,7 +345,8 @@ def trimSp (s : String) : String :=
   String.ofList ((s.toList.dropWhile (· = ' ')).reverse.dropWhile (· = ' ')).reverse
 
 /-- `Heap.WF` of the accessor model, decided on the heap view of the store -/
-def awf (s : Store) : String := if decide (toAccessHeap s).WF then "1" else "0"
+def awf (s : Store) : String :=
+  (if decide (toAccessHeap s).WF then "1" else "0") ++ " wfq=" ++ (if wfq s then "1" else "0")
 
 /-- one op; `none` = stop the script -/
 def runOp (n : Nat) (st : St) (op : String) : Except String (St × Bool) :=
@@ -405,7 +409,7 @@ def runOp (n : Nat) (st : St) (op : String) : Except String (St × Bool) :=
         let iso := isoVerdict st.s s (optPairs st.s s roots mapped)
         -- hypotheses of `C19_optimize_preserves` on the state before the call
         let wfv := if (wf st.s && rootsOK st.s roots) || (wfv st.s && rootsOKv st.s roots) then "1" else "0"
-        let rec_ := s!"{n}:opt ok M=[{m}] {dump s} BEFORE" ++ "{" ++ before ++ "} AFTER{" ++ after ++ "}" ++ s!" iso={iso} wf={wfv} awf={awf s}"
+        let rec_ := s!"{n}:opt ok M=[{m}] {dump s} BEFORE" ++ "{" ++ before ++ "} AFTER{" ++ after ++ "}" ++ s!" iso={iso} wf={wfv} awf={awf s} ns={if noStale st.s then 1 else 0}"
         .ok ({ st with s := s, hs := hs, out := st.out ++ [rec_] }, true))
   | "clone" =>
     match handleOf rest st.hs with
